@@ -136,9 +136,27 @@ def make_enum (c):
     return dict (groups = base, mutated = [name], kind = 'enum')
 # end def make_enum
 
+# ---- fixed stratum: valid command lines combining options that interact (every one must give a
+# complete finite report)
+W2 = [['-f', '7.1'], ['-w', '6,0,0,0,0,0,10,0.01'], ['-w', '4,0,0,10,6,0,10,0.01'], ['--excitation-pulse', '1']]
+FIXED = \
+    [ W2 + [['--medium', '13,0.005,0,20'], ['--medium', '5,0.001,-1'], ['--radial-count', '16'], ['--radial-radius', '0.001'], ['--option', 'far-field-absolute'], ['--ff-distance', '1000']]
+    , W2 + [['--medium', '13,0.005,0,20'], ['--medium', '5,0.001,-1'], ['--radial-count', '16'], ['--radial-radius', '0.001'], ['--boundary', 'linear'], ['--option', 'far-field-absolute'], ['--ff-distance', '1000'], ['--ff-power', '100']]
+    , W2 + [['--medium', '13,0.005,0,20'], ['--medium', '5,0.001,-1'], ['--radial-count', '16'], ['--radial-radius', '0.001'], ['--boundary', 'circular'], ['--option', 'far-field-absolute'], ['--ff-distance', '1000']]
+    , W2 + [['--medium', '13,0.005,0,20'], ['--medium', '5,0.001,-1'], ['--boundary', 'circular'], ['--option', 'far-field-absolute'], ['--option', 'far-field'], ['--ff-distance', '10']]
+    , W2 + [['--medium', '13,0.005,0,5'], ['--medium', '5,0.001,-1,30'], ['--medium', '20,0.01,-2'], ['--theta', '0,15,7'], ['--phi', '0,30,13']]
+    , W2 + [['--medium', '0,0,0'], ['--near-field', '15,15,15,1,1,1,2,2,1'], ['--option', 'near-field'], ['--option', 'far-field'], ['--nf-power', '100']]
+    , W2 + [['--medium', '13,0.005,0'], ['--frequency-steps', '3'], ['--frequency-increment', '0.05'], ['--skin-effect-conductivity', '5.8e7'], ['--insulation-load', '0.02,2.5,2']]
+    , W2 [:3] + [['--excitation-pulse', '2'], ['--excitation-pulse', '1,2'], ['--excitation-voltage', '1+1j'], ['--excitation-voltage', '0.5j'], ['--theta', '90,-10,10'], ['--phi', '0,-45,8']]
+    , W2 + [['-l', '50-20j'], ['--rlc-load', '5,1e-6,'], ['--trap-load', '1,1e-6,1e-10'], ['--laplace-load-a', '1,1e-7'], ['--laplace-load-b', '10,1e-6'], ['--attach-load', '4,1'], ['--attach-load', '1,all'], ['--attach-load', '3,2,2'], ['--attach-load', '2,all,1']]
+    , [['-f', '14.2'], ['-a', '8,2,0,180,0.005'], ['--helix', '12,3,1.5,0.005,0.5,0.5,0.3,0.3'], ['--geo-translate', '1,10,0,0,2'], ['--geo-rotate', '2,10,20,30'], ['--geo-scale', '0.5'], ['--excitation-pulse', '3,1']]
+    , [['-f', '14.2'], ['-w', '1,8,0,0,0,0,0,5,0.01'], ['--taper-wire', '1,3,0.1,2'], ['--medium', '0,0,0'], ['--excitation-pulse', '1'], ['--output-cmdline', '@TMP@/o.pym'], ['--output-basic-input', '@TMP@/o.mini'], ['--mininec-version', '13']]
+    , [['-T', None]] + W2
+    ]
+
 def plan (tier, seed):
     n = 3000 if tier == 'quick' else 100000
-    return enum_cases () + [dict (i = i, seed = seed) for i in range (n)]
+    return [dict (kind = 'fixed', k = k) for k in range (len (FIXED))] + enum_cases () + [dict (i = i, seed = seed) for i in range (n)]
 # end def plan
 
 def base (rng):
@@ -164,8 +182,10 @@ def base (rng):
         spec = gen.fam_ground (rng, media = med)
         if env == 'real2':
             spec ['boundary'] = str (rng.choice (['linear', 'circular']))
-            if spec ['boundary'] == 'circular' and rng.random () < 0.5:
+            if spec ['boundary'] == 'circular' and rng.random () < 0.6:
                 spec ['radials'] = [int (rng.integers (4, 60)), 0.001]
+                if rng.random () < 0.5:
+                    spec ['boundary'] = None      # radials imply a circular boundary
     ntag = len (spec ['geo'])
     if rng.random () < 0.3:
         for i, g in enumerate (spec ['geo']):
@@ -215,9 +235,14 @@ def base (rng):
             groups.append ([a, None])
             i += 1
     lam = gen.C_MHZ / spec ['f']
-    if rng.random () < 0.5:
+    u = rng.random ()
+    if u < 0.45:
         groups.append (['--theta', '%g,%g,%d' % (rng.choice ([0, 10, 45]), rng.choice ([10, 30, 45]), rng.integers (1, 4))])
         groups.append (['--phi', '%g,%g,%d' % (rng.choice ([0, 90]), rng.choice ([45, 180]), rng.integers (1, 3))])
+    elif u < 0.6:
+        groups.append (['--phi', '0,60,6'])
+    elif u < 0.65:
+        pass        # default angle grids
     else:
         groups.append (['--theta', '0,45,2'])
         groups.append (['--phi', '0,90,2'])
@@ -347,6 +372,8 @@ def soup (rng):
 def make (c):
     if c.get ('kind') == 'enum':
         return make_enum (c)
+    if c.get ('kind') == 'fixed':
+        return dict (groups = [list (g) for g in FIXED [c ['k']]], mutated = ['fixed%d' % c ['k']], kind = 'fixed')
     rng = np.random.default_rng ([c ['seed'], 20, c ['i']])
     if rng.random () < 0.1:
         g = soup (rng)
@@ -458,6 +485,9 @@ def check (c):
     r, argv = run (spec ['groups'])
     cls, key, msg = classify (r)
     viol = []
+    if key is None and spec ['kind'] == 'fixed' and cls != 'report':
+        key = 'valid-command-line-refused'
+        msg = 'a valid command line does not give a report: outcome %s (%s)' % (cls, msg)
     if key is not None:
         small = shrink (spec ['groups'], key) if not c.get ('noshrink') else spec ['groups']
         viol.append (dict ( monitor = 'outcome', key = key, msg = msg + ' | minimal argv: ' + ' '.join (flatten (small, '/tmp/x')) [:900]
